@@ -98,18 +98,25 @@ def run_job(ctx, drv, job, tag):
         return json.load(fh)
 
 
-def parallel_stage(ctx, thorough):
+def parallel_stage(ctx, thorough, protos=None, sflow_filter=None):
     """the real workers running freely, 4 at a time on 8 threads, under the race detector: every published message must be
     the stand-alone message of one received datagram, none more often than datagrams produce it"""
     import collections
     drv = ctx.go_build_test("vflow", ["vflow/pipeline_verif_test.go"], race=True)
     jobs = []
-    for proto in PROTOS:
+    for proto in (protos or PROTOS):
         for k in range(3 if thorough else 1):
             j = make_job(ctx, proto, 4, ctx.seed * 1000 + 800 + k, 120 if thorough else 60)
             j["free"] = True
             if proto in ("ipfix", "sflow") and k % 2 == 0:
                 j["mirror"] = "on"
+            jobs.append(j)
+        if proto == "sflow":
+            # with a type filter of several entries (counter samples listed second): every decoder of every worker is given
+            # the same configured list
+            j = make_job(ctx, proto, 4, ctx.seed * 1000 + 850, 120 if thorough else 60)
+            j["free"] = True
+            j["filter"] = sflow_filter or [7, 2]
             jobs.append(j)
     for i, j in enumerate(jobs):
         j["id"] = 900 + i
